@@ -160,7 +160,10 @@ impl<'a> Subject for ModSubject<'a> {
                         o.emits = 0;
                     }
                     Err(e) => {
-                        return Err(Finding { sig: "own-output-rejected".into(), detail: format!("walrus rejects its own output: {:#}", e) });
+                        // an output the reference validator rejects too is C02's violation (reported
+                        // there with the precise reason); the history simply ends here
+                        let sig = if wmodel::validate214(&out, wmodel::FeatureSet::DEFAULT).is_err() { "panic:invalid-output-ends-history" } else { "own-output-rejected" };
+                        return Err(Finding { sig: sig.into(), detail: format!("walrus rejects its own output: {:#}", e) });
                     }
                 }
             }
@@ -204,7 +207,11 @@ impl<'a> Subject for ModSubject<'a> {
                         });
                     }
                 }
-                Err(e) => fs.push(Finding { sig: "own-output-rejected".into(), detail: format!("walrus rejects its own output: {:#}", e) }),
+                Err(e) => {
+                    if wmodel::validate214(&e1, wmodel::FeatureSet::DEFAULT).is_ok() {
+                        fs.push(Finding { sig: "own-output-rejected".into(), detail: format!("walrus rejects its own (valid) output: {:#}", e) })
+                    }
+                }
             }
         }
         (digest, fs)
@@ -304,7 +311,7 @@ pub fn run(prop: &'static str, args: &Args) -> i32 {
         return finish(args, ev, v, &|c| recheck(prop, c));
     }
     let worker = std::env::var("WCHECK_WORKER").is_ok();
-    let fams: &[&str] = if prop == "C08" { &["fixtures", "struct", "funcs", "locals", "names", "customs"] } else { &["customs", "fixtures"] };
+    let fams: &[&str] = if prop == "C08" { &["fixtures", "struct", "funcs", "locals", "names", "customs", "idshift", "ctrl", "reach", "leb"] } else { &["customs", "fixtures"] };
     let depth = if args.tier == Tier::Quick { 4 } else { 6 };
     let ms = crate::props::families::members(fams, args, &mut ev);
     let cases: Vec<Case> = ms.iter().map(|m| Case::of(m).with(Cfg::default().json())).collect();
